@@ -124,12 +124,37 @@ func (c *Ctx) cod8() {
 	}
 	var minLen int64 = -1
 	var hashHi, sumLo, pktHi, seqLo int64 = -1, -1, -1, -1
-	for _, b := range dec.Blocks {
+	// the record buffer: the parameter, also when handed on to a helper introduced later
+	isBuf := func(v ssa.Value) bool {
+		if v == buf {
+			return true
+		}
+		pr, ok := v.(*ssa.Parameter)
+		return ok && pr.Type().String() == "[]byte" && pr.Parent() != dec && c.isNewHelper(pr.Parent())
+	}
+	lenMinusBuf := func(v ssa.Value) (int64, bool) {
+		if k, ok := lenMinus(v, buf); ok {
+			return k, true
+		}
+		for _, b := range c.regionBlocks(dec) {
+			if b.Parent() != dec {
+				for _, pr := range b.Parent().Params {
+					if isBuf(pr) {
+						if k, ok := lenMinus(v, pr); ok {
+							return k, true
+						}
+					}
+				}
+			}
+		}
+		return lenMinus(v, buf)
+	}
+	for _, b := range c.regionBlocks(dec) {
 		for _, ins := range b.Instrs {
 			switch x := ins.(type) {
 			case *ssa.BinOp:
 				if x.Op == token.LSS && b == dec.Blocks[0] {
-					if arg, ok := builtinCall(x.X, "len"); ok && arg == buf {
+					if arg, ok := builtinCall(x.X, "len"); ok && isBuf(arg) {
 						minLen, _ = intConst(x.Y)
 					}
 				}
@@ -137,8 +162,8 @@ func (c *Ctx) cod8() {
 				f := x.Call.StaticCallee()
 				if f == nil {
 					if x.Call.IsInvoke() && x.Call.Method.Name() == "Write" {
-						if sl, ok := x.Call.Args[0].(*ssa.Slice); ok && sl.X == buf && sl.Low == nil {
-							hashHi, _ = lenMinus(sl.High, buf)
+						if sl, ok := x.Call.Args[0].(*ssa.Slice); ok && isBuf(sl.X) && sl.Low == nil {
+							hashHi, _ = lenMinusBuf(sl.High)
 						}
 					}
 					continue
@@ -148,13 +173,13 @@ func (c *Ctx) cod8() {
 					r.hashCtor = f.Name()
 				case f.Name() == "Uint32":
 					r.sumOrder = recvTypeOf(x)
-					if sl, ok := x.Call.Args[1].(*ssa.Slice); ok && sl.X == buf {
-						sumLo, _ = lenMinus(sl.Low, buf)
+					if sl, ok := x.Call.Args[1].(*ssa.Slice); ok && isBuf(sl.X) {
+						sumLo, _ = lenMinusBuf(sl.Low)
 					}
 				case f.Name() == "Uint64":
 					r.seqOrder = recvTypeOf(x)
-					if sl, ok := x.Call.Args[1].(*ssa.Slice); ok && sl.X == buf {
-						seqLo, _ = lenMinus(sl.Low, buf)
+					if sl, ok := x.Call.Args[1].(*ssa.Slice); ok && isBuf(sl.X) {
+						seqLo, _ = lenMinusBuf(sl.Low)
 					}
 				}
 			case *ssa.Return:
